@@ -9,7 +9,7 @@ use crate::engine::*;
 use crate::gen::*;
 use crate::model::Tt;
 use crate::orbit::*;
-use crate::props::c04::{arb_canon_tt, arb_group, canon};
+use crate::props::c04::{arb_canon_tt, arb_group, canon, positioned_input, PosCase};
 use crate::ensure;
 
 #[derive(Clone, Debug, Hash, Serialize, Deserialize)]
@@ -105,6 +105,31 @@ fn run(c: &Case) -> Verdict {
     pass(moved && !ident, labels)
 }
 
+fn strategy_pos(t: Tier) -> BoxedStrategy<PosCase> {
+    let w8 = t.pick(1u32, 3u32);
+    (arb_fam(), arb_group(), prop_oneof![2 => 2usize..=4, 6 => 5usize..=6, 8 => Just(7usize), w8 => Just(8usize)], 0u8..=11, any::<u64>())
+        .prop_flat_map(|(fam, group, n, pos_class, pos_raw)| crate::gen::arb_tt(n).prop_map(move |r| PosCase { fam, group, r, pos_class, pos_raw }))
+        .boxed()
+}
+
+/// certificate check on an input whose minimum is met at a chosen position of the walk
+fn run_pos(c: &PosCase) -> Verdict {
+    let (f, _cm, idx, total) = match positioned_input(c) {
+        Some(v) => v,
+        None => return pass(false, vec!["skipped:cannot-position".into()]),
+    };
+    match run(&Case { fam: c.fam, group: c.group, f }) {
+        Ok(mut p) => {
+            p.labels.push(format!("pos:{}", c.pos_class));
+            Ok(p)
+        }
+        Err(mut e) => {
+            e.msg = format!("{} [input built so that the walk meets the minimum at compare point {} of {}]", e.msg, idx, total);
+            Err(e)
+        }
+    }
+}
+
 fn enumerate(t: Tier, shard: usize, nshards: usize, f: &mut dyn FnMut(Case) -> bool) {
     let max_n = t.pick(3, 4);
     let mut sc = ShardCounter::new(shard, nshards);
@@ -128,7 +153,7 @@ fn enumerate(t: Tier, shard: usize, nshards: usize, f: &mut dyn FnMut(Case) -> b
 pub fn def() -> PropDef {
     PropDef {
         id: "C05",
-        rule: "cases = (family, group in {P,N,NPN}, f); the returned (table, perm, mask) must satisfy: perm is a permutation of 0..n, mask has no bit above n (P: mask=0 by type, N: perm=identity by type), and g(y) = f(x) ^ mask[n] with x[perm[i]] = y[i] ^ mask[i], evaluated by the harness on every assignment, equals the returned table; then the returned table is canonized again and that second certificate is checked too, so every case also exercises an argument that is already its own representative. Exhaustive for all f of n<=3 (quick) / n<=4 (thorough) x 3 groups x 2 families; generated f (table generator + few-ones + symmetric classes) for n in 0..=7, and n=8 in `large`. Non-trivial = the certificate is not the identity and the function is not invariant under it; fixed-point and totally symmetric inputs are labelled.",
+        rule: "cases = (family, group in {P,N,NPN}, f); the returned (table, perm, mask) must satisfy: perm is a permutation of 0..n, mask has no bit above n (P: mask=0 by type, N: perm=identity by type), and g(y) = f(x) ^ mask[n] with x[perm[i]] = y[i] ^ mask[i], evaluated by the harness on every assignment, equals the returned table; then the returned table is canonized again and that second certificate is checked too, so every case also exercises an argument that is already its own representative. Exhaustive for all f of n<=3 (quick) / n<=4 (thorough) x 3 groups x 2 families; generated f (table generator + few-ones + symmetric classes) for n in 0..=7, and n=8 in `large`. walkpos: the same certificate check on inputs built (as in C04/walkpos) so that the library's walk meets the orbit minimum at a chosen compare point: first three, last two, around the middle, around a block boundary, or uniformly drawn. Non-trivial = the certificate is not the identity and the function is not invariant under it; fixed-point and totally symmetric inputs are labelled.",
         assumptions: vec![
             "value(), from_blocks()/set_bit() as observation/loading channel",
             "a canonization call that panics is skipped here (normal termination for every n is C04)",
@@ -143,6 +168,15 @@ pub fn def() -> PropDef {
                 exhaustive: Some(enumerate),
                 exhaustive_note: "all functions of n<=3 (quick) / n<=4 (thorough) x {P,N,NPN} x {Lut,LutN}, plus the returned representative of each as a second argument",
                 run,
+            }),
+            Box::new(Sub {
+                name: "walkpos",
+                rule: "certificates of inputs whose minimum is met at a chosen compare point of the walk (first, last, middle, block boundaries +-1, drawn), n in 2..=8",
+                strategy: strategy_pos,
+                cases: (1_500, 60_000),
+                exhaustive: None,
+                exhaustive_note: "",
+                run: run_pos,
             }),
             Box::new(Sub {
                 name: "witness-large",
